@@ -7,6 +7,20 @@ fn main() {
         std::process::exit(2);
     }
     let prop = args[1].clone();
+    if prop == "dbg-parse" {
+        // pverif dbg-parse '<term>' name:width ...
+        let mut ctx = patronus::expr::Context::default();
+        let mut st: rustc_hash::FxHashMap<String, patronus::expr::ExprRef> = Default::default();
+        for a in &args[3..] {
+            let (n, w) = a.rsplit_once(':').unwrap();
+            let s = ctx.bv_symbol(n, w.parse().unwrap());
+            st.insert(n.to_string(), s);
+        }
+        let r = patronus::smt::parse_expr(&mut ctx, &st, args[2].as_bytes());
+        use patronus::expr::SerializableIrNode;
+        println!("{:?}", r.map(|e| e.serialize_to_str(&ctx)));
+        return;
+    }
     let mut tier = match std::env::var("VERIF_TIER").ok().as_deref() {
         Some("thorough") => Tier::Thorough,
         _ => Tier::Quick,
@@ -31,12 +45,19 @@ fn main() {
     let seed = pverif::rng::seed_from_env();
     // quiet panics of the code under test (they are caught and reported)
     pverif::panics::install();
-    let code = match prop.as_str() {
+    let code = std::panic::catch_unwind(std::panic::AssertUnwindSafe(|| match prop.as_str() {
         "C01" => pverif::c01::run(tier, seed, replay),
+        "C05" => pverif::c05::run(tier, seed, replay),
+        "C11" => pverif::c11::run(tier, seed, replay),
+        "C14" => pverif::c14::run(tier, seed, replay),
         _ => {
             eprintln!("unknown property {prop}");
             2
         }
-    };
+    }))
+    .unwrap_or_else(|_| {
+        println!("HARNESS-PANIC: the check itself crashed (see stderr); nothing was decided");
+        2
+    });
     std::process::exit(code);
 }
